@@ -492,9 +492,10 @@ Definition is_body (P : params) (s2 : nstate) (rt : N) (tr1 : list ev) (fs1 : li
           let s4 := set_applied_fsm s3 (iq_lastIdx q) (iq_data q) (iq_lastIdx q, iq_lastTerm q) in
           let s5 := set_lastsnap s4 (iq_lastIdx q) (iq_lastTerm q) in
           let s6 := set_committed (set_latest s5 (iq_cfg q) (iq_cfgIdx q)) (iq_cfg q) (iq_cfgIdx q) in
-          (* after the "fix:" commit in /repo: a monotonic store is wiped and the cached tail reset;
-             otherwise a tail above the snapshot index that does not follow the snapshot (the log does
-             not hold the snapshot's last entry with its term) is deleted first, then compaction *)
+          (* after the "fix:" commits in /repo: a monotonic store is wiped and the cached tail reset;
+             otherwise a tail from the snapshot index on that does not follow the snapshot (the log holds
+             the snapshot's last entry with another term, or does not hold it and the server's previous
+             snapshot is not this one) is deleted first, then compaction *)
           if p_monotonic P then
             let range := remove_old (log_first (d_log s6)) (log_last (d_log s6)) in
             match range with
@@ -511,7 +512,11 @@ Definition is_body (P : params) (s2 : nstate) (rt : N) (tr1 : list ev) (fs1 : li
               (iq_lastIdx q <=? v_lastLogIdx s6) &&
               match d_log s6 !! iq_lastIdx q with
               | Some e => negb (e_term e =? iq_lastTerm q)
-              | None => true
+              | None =>
+                (* the entry was compacted away: the tail agrees with the snapshot only if it already
+                   followed this very snapshot (the same snapshot delivered again) - s2 is the state
+                   before the bookkeeping above (fix: commit) *)
+                negb ((v_lastSnapIdx s2 =? iq_lastIdx q) && (v_lastSnapTerm s2 =? iq_lastTerm q))
               end in
             let '(s6', trt, fs3') :=
               if stale_tail then
